@@ -4,10 +4,10 @@ CONSTANTS
   PRICE = {1, 2}
   AMOUNT = {0, 1, 2}
   RULES = {"Spot", "Futures"}
-  MCM = 5
+  MCM = 6
   EVOLUTIONS <- FewEvolutions
-  MaxEvents = 4
-  MaxDeliver = 8
+  MaxEvents = 5
+  MaxDeliver = 9
   MaxReinit = 1
 INVARIANTS TypeOK Chain BookValid BookNeverWrong BookIsMap Told CleanNeverErrors
 PROPERTIES BreakSurfaces Isolation AdvanceOnlyOnAdmission
